@@ -4,9 +4,16 @@ mod vstubs {
 use vstd::prelude::*;
 use crate::*;
 use ciborium::value::Value;
+use crate::vprelude::*;
 verus!{
-#[verifier::external_body] pub fn sig_to_cbor_value__stub(s: CoseSignature) -> Result<Value> { s.to_cbor_value() }
-#[verifier::external_body] pub fn sigs_to_cbor_array__stub(s: alloc::vec::Vec<CoseSignature>) -> Result<Value> { crate::util::to_cbor_array(s) }
+#[verifier::external_body] pub fn sig_to_cbor_value__stub(s: CoseSignature) -> (r: Result<Value>)
+    ensures r is Ok <==> crate::header::sig_encodable(s), r matches Ok(v) ==> vv(v) == crate::header::sig_cv(s),
+{ s.to_cbor_value() }
+#[verifier::external_body] pub fn sigs_to_cbor_array__stub(s: alloc::vec::Vec<CoseSignature>) -> (r: Result<Value>)
+    ensures
+        r is Ok <==> (forall |i: int| 0 <= i < s@.len() ==> crate::header::sig_encodable(#[trigger] s@[i])),
+        r matches Ok(v) ==> (v matches Value::Array(a) && a@.len() == s@.len() && forall |i: int| 0 <= i < a@.len() ==> vv(#[trigger] a@[i]) == crate::header::sig_cv(s@[i])),
+{ crate::util::to_cbor_array(s) }
 #[verifier::external_body] pub fn recipient_from_cbor_value__stub(v: Value) -> Result<CoseRecipient> { CoseRecipient::from_cbor_value(v) }
 #[verifier::external_body] pub fn recipients_to_cbor_array__stub(s: alloc::vec::Vec<CoseRecipient>) -> Result<Value> { crate::util::to_cbor_array(s) }
 }
